@@ -1,6 +1,7 @@
 package rtgen
 
 import (
+	"fmt"
 	"regexp"
 	"strings"
 
@@ -15,7 +16,9 @@ var values = []string{"1", "42", "abc", "a", "b", "users", "list", "new", "x1", 
 	"ab", "xb", "usersx", "xusers", "opened", "unclosed", "avoid", "open", "void", "v1x", "xv3", "v2",
 	"123e4567-e89b-62d3-a456-426614174000", "2024-1-01", "12a", "-3.5e2", "1e",
 	// dot segments and dots inside segments: a captured remainder is handed over verbatim
-	"..", ".", "x..y", "v1..2", "..a"}
+	"..", ".", "x..y", "v1..2", "..a",
+	// signed and padded numbers: an int constraint is "digits only"
+	"-5", "+7", "007", "1_0"}
 
 var consPalette = []ConsT{
 	{Kind: "int"}, {Kind: "int"}, {Kind: "float"}, {Kind: "uuid"}, {Kind: "date"},
@@ -371,6 +374,10 @@ func GenReq(r *hx.Rand, script []RegT) ReqT {
 	if r.Chance(1, 60) {
 		q.Method = hx.Pick(r, []string{"TRACE", "CONNECT", "get", "PROPFIND"})
 	}
+	if r.Chance(1, 40) {
+		// an extension method with the length and the first byte of a standard one
+		q.Method = hx.Pick(r, []string{"PURGE", "DETACH", "PING", "GOT", "PUB", "HELO", "OPTIMAL", "PARSE"})
+	}
 	segs := strings.Split(strings.TrimPrefix(q.Path, "/"), "/")
 	if q.Path == "/" {
 		segs = nil
@@ -411,7 +418,42 @@ func GenReq(r *hx.Rand, script []RegT) ReqT {
 	if r.Chance(1, 80) {
 		q.Path = strings.TrimPrefix(q.Path, "/") // no leading slash (outside the canonical domain)
 	}
+	if r.Chance(1, 12) {
+		q.Raw = EscapeSome(r, q.Path)
+	}
 	return q
+}
+
+// EscapeSome spells the path as a request target in which some bytes are percent-escaped although they need
+// not be (net/http then sets URL.RawPath next to the decoded URL.Path); "" when nothing was escaped.
+func EscapeSome(r *hx.Rand, path string) string {
+	if len(path) < 2 || path[0] != '/' {
+		return ""
+	}
+	var b strings.Builder
+	n := 0
+	k := r.Range(1, 3)
+	for i := 0; i < len(path); i++ {
+		c := path[i]
+		if i > 0 && n < k && r.Chance(1, 4) && c != '%' {
+			if r.Chance(1, 2) {
+				fmt.Fprintf(&b, "%%%02X", c)
+			} else {
+				fmt.Fprintf(&b, "%%%02x", c)
+			}
+			n++
+			continue
+		}
+		if c == '%' || c == ' ' || c >= 0x80 || c == '?' || c == '#' {
+			fmt.Fprintf(&b, "%%%02X", c)
+			continue
+		}
+		b.WriteByte(c)
+	}
+	if n == 0 {
+		return ""
+	}
+	return b.String()
 }
 
 var wideStatics = []string{"a", "b", "users", "list", "new", "api", "v1", "health", "c", "d", "é", "items"}
